@@ -123,10 +123,15 @@ def eval_random(case):
             def answer(n, stream=stream, reqs=reqs):
                 reqs.append(n)
                 if len(reqs) > 400:
-                    return b"\0" * n          # horizon: reported below
-                # requests of another size than the digit protocol's 8 bytes are served from the same stream, 8 bytes at a time
-                out = b"".join(next(stream, default).to_bytes(8, "little") for _ in range((n + 7) // 8))
-                return out[:n]
+                    return ffi.varying_filler(len(reqs), n)          # horizon: reported below (never a constant: see ffi.varying_filler)
+                if n == 8:
+                    return next(stream, default).to_bytes(8, "little")
+                # requests of another size than the digit protocol's 8 bytes are served from the same stream, 8 bytes at a time, and from a
+                # varying filler once the scripted answers are used up
+                chunks = [next(stream, None) for _ in range((n + 7) // 8)]
+                if any(c is None for c in chunks):
+                    return ffi.varying_filler(len(reqs), n)
+                return b"".join(c.to_bytes(8, "little") for c in chunks)[:n]
             cb = L.rng(answer)
             yb = L.buf(32, b"\xCD" * 32)
             Bn = L.f12(base(a))
